@@ -97,6 +97,11 @@ check("C17", "exploration",
       "Reference lists and the colour table are written into /verif from the standards; the Go standard library and x/net/html are the entity references.",
       "complete enumeration of finite tables vs independent standard tables, directly and through the public API", "DESIGN.md#c17")
 
+check("C10", "exploration",
+      "Every string of <=3 (thorough <=4) symbols over a structural alphabet per media type (24-66 symbols incl. multi-byte ones and the bytes NUL/0x80/0xC3) and every byte string of length <=2 over all 256 values goes through Bytes and String of each of the six minifiers under four registries (default, all options non-default, precision 17, extreme precisions); the helpers Number/Decimal/Mediatype/DataURI run on every string of <=4 (<=5) symbols of their alphabets with precisions -1,0,1,17,1000,MaxInt and on their fuzz corpora; every truncation and one-byte deletion of every corpus/benchmark file up to a size bound; 46 nesting/repetition ladders unit^n. Oracle: no panic, a watchdog for non-termination, on error the original data is returned and the caller's slice is unchanged, Bytes and String agree; growth: a separately built binary with coverage counters gives the number of executed code blocks, which may at most triple when n doubles (deterministic, no wall clock); allocated bytes likewise.",
+      "Arbitrary byte strings are decided only up to the length bound and the one-edit neighbourhood of the bundled files; cost hidden inside copy/append (memmove) is visible only in the recorded wall time, which decides nothing.",
+      "bounded exhaustive input enumeration + deterministic work-growth ladders (coverage block counters)", "DESIGN.md#c10")
+
 ALL = ["C%02d" % i for i in range(1, 21)]
 NOT_YET = {p: "check not built yet in this revision (planned, see DESIGN.md section 4); not claimed until its command exists" for p in ALL if p not in CHECKS}
 
